@@ -43,7 +43,7 @@ def generate(rng, tier):
     victim = rng.randrange(nsvc)
     mode = "close" if rng.random() < 0.25 else "unregister"
     # queries before the withdrawal
-    nq = rng.choice([1, 1, 2, 3, 4])
+    nq = rng.choice([1, 1, 2, 3, 4] + ([6, 10] if tier == "thorough" else []))
     qt = base
     last_q = base
     for _ in range(nq):
